@@ -326,6 +326,11 @@ also('C03', 'the sweep over the gate list dispatches every gate - no continue / 
             '(NR1); no angle is reduced modulo a multiple of pi in numqi.sim / numqi.gate (PG1).')
 also('C04', 'forward / backward of every autograd Function store only into ctx and local objects (A10, 10 methods); no *_grad primitive branches on the numeric content of the '
             'operator (A11); a memo key compared with an argument is stored as a copy (AL3, closures included).')
+also('C05', 'the strongest precondition met along the call chain of the symmetric-extension entry points still admits kext = 1 (DOM1); a matricisation inside a loop over '
+            'bipartitions takes its row size from the same bipartition (RS1).')
+also('C06', 'the symmetric-extension entry points admit kext = 1 along their call chain (DOM1); the Gell-Mann norm is not a difference of two separately computed squared norms '
+            '(F9); a block-wise stacked batch is unfolded block-major (CC1); hf_interpolate_dm does not clamp its parameter (I2).')
+also('C16', 'no square root of a difference of two separately computed squared norms in numqi.gellmann (F9).')
 also('C07', 'every formulation of the ordering-phase term of clifford_multiply puts the Z-half of Sy on the first index of the strict upper triangle (H9); no flattened state '
             'stands on the left of `@` with an operator on the right (VM1).')
 also('C08', 'integer bit weights are never cast to a floating dtype (PR1); the qubit count of a batch of strings is never the dtype storage width (E6).')
